@@ -222,6 +222,7 @@ class PoolRun:
         self.workers = {}       # id -> dict(gate=future|None, r, j)
         self.cbgates = {}       # (which, id) -> future
         self.hs = []            # harness tasks
+        self.hcancelled = set()
         self.names = []         # group names ever handed out / used
         size = cfg.get("size", -1)
         kw = {}
@@ -541,6 +542,7 @@ class PoolRun:
             elif o == "hcancel":
                 f["h"] = op["h"]
                 if op["h"] < len(self.hs) and not self.hs[op["h"]].done():
+                    self.hcancelled.add(op["h"])
                     self.hs[op["h"]].cancel()
                 else:
                     f["res"] = "skip"
@@ -641,7 +643,10 @@ class PoolRun:
                 raise ValueError(kind)
             self.ev("hdone", h=h, kind=kind, res="ok", tok="", G=True)
         except asyncio.CancelledError:
-            self.ev("hdone", h=h, kind=kind, res="cancelled", tok="", G=True)
+            # "cancelled" = the user cancelled this awaiting task; otherwise the awaited method itself raised
+            # CancelledError (e.g. gather() over a cancelled child), which is an exception like any other
+            res = "cancelled" if h in self.hcancelled else "CancelledError"
+            self.ev("hdone", h=h, kind=kind, res=res, tok="", G=True)
         except BaseException as e:
             self.ev("hdone", h=h, kind=kind, res=_exc_name(e), tok=str(e), G=True)
 
